@@ -29,9 +29,9 @@ EXPLANATION = (
 )
 ASSUMPTIONS = [
     "numpy.nditer(readwrite) iterates the result in row order; numpy.clip(x, lo, hi) clips to [lo, hi]",
-    "the defuzzifier returns a fresh value (checked for the in-package defuzzifiers by C02/V2 and C13/OWN)",
+    "user-defined defuzzifiers return a fresh value (the in-package ones are checked: O9)",
 ]
-FLOORS = {"O-sem": 1, "O1": 1, "O2": 1, "O3": 2, "O4": 3, "O5": 3, "O6": 3, "O8": 3}
+FLOORS = {"O9": 5, "O-sem": 1, "O1": 1, "O2": 1, "O3": 2, "O4": 3, "O5": 3, "O6": 3, "O8": 3}
 
 SELF = ("param", "self")
 
@@ -45,6 +45,7 @@ def run(check: Check) -> None:
     # "if a default value is set": the flags and the default the cascade reads are the ones the variable was built with
     constructor_fidelity(check, bases=("Variable",))
     cascade(check)
+    defuzzifier_results_fresh(check)
     setter(check)
     clear(check)
     from .common import who_may_write
@@ -57,6 +58,114 @@ def run(check: Check) -> None:
     except AnalysisError as ex:
         check.notes.append(f"O-sem undecided: {ex}")
         check.ok("O-sem", "OutputVariable.defuzzify/undecided", f"the cascade as a whole is outside the array model of the interpreter ({ex}); decided by O1-O8 only")
+
+
+NON_COPYING = {"fuzzylite.library.scalar", "fuzzylite.library.array", "numpy.asarray", "numpy.asanyarray", "numpy.atleast_1d", "numpy.atleast_2d", "numpy.squeeze",
+               "numpy.ravel", "numpy.reshape", "numpy.transpose"}
+
+
+def defuzzifier_results_fresh(check: Check, rule: str = "O9") -> None:
+    """O9: `OutputVariable.defuzzify` fills the defuzzified value in place (previous value, default value) after coercing it with a function that
+    does not copy an array. That is only sound when every defuzzifier hands out a value of its own: a `defuzzify` that returns an object it (or its
+    class, or its module) keeps - `return self.undefined` - gets that object rewritten by the cascade, for every variable and every later call.
+    Every return value of every concrete defuzzifier must be the result of a computation (a call, an arithmetic expression) and not a stored object
+    or a non-copying view of one. If the cascade copies the result itself the rule has nothing to demand."""
+    p = check.program
+    fn = p.func("OutputVariable.defuzzify")
+    r0 = Resolver(p, fn)
+    copied = False
+    for n, c in r0.cfg.all_calls():
+        t = r0.term(c, n)
+        if t[0] == "call" and ((t[1][0] == "global" and t[1][1] in ("numpy.array", "numpy.copy", "copy.copy", "copy.deepcopy")) or (t[1][0] == "attr" and t[1][2] in ("copy", "astype"))) \
+                and any(s_[0] == "call" and s_[1][0] == "attr" and s_[1][2] == "defuzzify" for s_ in walk(t)) and "copy=False" not in unparse(c).replace(" ", ""):
+            copied = True
+    if copied:
+        check.ok(rule, "OutputVariable.defuzzify/own-copy", "the cascade works on a copy of the defuzzified value: what the defuzzifier keeps is never written", loc(fn))
+        return
+
+    def stored(t: Term, depth: int = 0) -> Term | None:
+        """The stored object `t` is (or is a non-copying view of), if any."""
+        t = strip(t)
+        if t[0] == "attr" and (t[1] == SELF or t[1][0] == "global" or (t[1][0] == "call" and t[1][1] == ("global", "type"))):
+            return t
+        if t[0] == "attr" and stored(t[1], depth + 1) is not None and t[2] in ("T", "real", "flat"):
+            return stored(t[1], depth + 1)
+        if t[0] == "global" and "." in t[1] and t[1].split(".")[0] == p.package and t[1].rsplit(".", 1)[0] in p.modules and t[1] not in p.functions and \
+                t[1].rsplit(".", 1)[1] not in ("nan", "inf"):
+            name = t[1].rsplit(".", 1)[1]
+            mod = p.modules[t[1].rsplit(".", 1)[0]]
+            if name in getattr(mod, "globals", {}) or name in getattr(mod, "assigned", {}):
+                return t
+            return None
+        if t[0] == "phi":
+            for a in t[1]:
+                s_ = stored(a, depth + 1)
+                if s_ is not None:
+                    return s_
+            return None
+        if t[0] == "ifexp":
+            return stored(t[2], depth + 1) or stored(t[3], depth + 1)
+        if t[0] == "call" and t[1][0] == "global" and t[1][1] in NON_COPYING and t[2]:
+            return stored(t[2][0], depth + 1)
+        if t[0] == "call" and t[1][0] == "attr" and t[1][2] in ("squeeze", "ravel", "reshape", "view", "transpose") :
+            return stored(t[1][1], depth + 1)
+        if t[0] == "sub":
+            return stored(t[1], depth + 1)
+        return None
+
+    def immutable_attr(c, name: str) -> bool:  # type: ignore[no-untyped-def]
+        """Every value the classes of `c` give the attribute is a Python number / None / string: nothing that can be written in place."""
+        rhs: list[ast.AST] = []
+        for k in c.mro:
+            node = k.class_attrs.get(name)
+            if node is not None:
+                rhs.append(node)
+            for m in k.methods.values():
+                for a in ast.walk(m.node):
+                    tg = a.targets if isinstance(a, ast.Assign) else [a.target] if isinstance(a, (ast.AnnAssign, ast.AugAssign)) else []
+                    if any(isinstance(t_, ast.Attribute) and t_.attr == name and isinstance(t_.value, ast.Name) and t_.value.id in ("self", "cls") for t_ in tg) and a.value is not None:
+                        rhs.append(a.value)
+
+        def plain(v: ast.AST) -> bool:
+            if isinstance(v, ast.Constant):
+                return True
+            if isinstance(v, ast.UnaryOp):
+                return plain(v.operand)
+            if isinstance(v, ast.Name) and v.id in ("nan", "inf"):
+                return True
+            if isinstance(v, ast.Attribute) and unparse(v) in ("math.nan", "math.inf", "np.nan", "np.inf", "numpy.nan", "numpy.inf"):
+                return True
+            if isinstance(v, ast.Call) and isinstance(v.func, ast.Name) and v.func.id in ("float", "int", "str", "bool") :
+                return True
+            return False
+
+        return bool(rhs) and all(plain(v) for v in rhs)
+
+    seen = set()
+    n_ret = 0
+    for c in p.subclasses("Defuzzifier", concrete_only=True):
+        f = c.lookup("defuzzify")
+        if f is None or f.qualname in seen:
+            continue
+        seen.add(f.qualname)
+        check.analysed(f)
+        r = Resolver(p, f)
+        hit = None
+        for n in r.cfg.stmt_nodes():
+            if isinstance(n.ast, ast.Return) and n.ast.value is not None:
+                n_ret += 1
+                s_ = stored(r.term(n.ast.value, n))
+                if s_ is not None and s_[0] == "attr" and s_[1] == SELF and immutable_attr(c, s_[2]):
+                    s_ = None  # a Python number kept by the defuzzifier: the cascade's coercion makes a new array of it
+                if s_ is not None and hit is None:
+                    hit = (n, s_)
+        check.require(hit is None, rule, f"{f.qualname}/fresh-result",
+                      "every value returned is computed for this call (nothing the defuzzifier keeps is handed out)" if hit is None else
+                      f"returns the stored object `{show(hit[1])}` (or a non-copying view of it): OutputVariable.defuzzify fills the previous / default value into the returned "
+                      "array in place, so the stored object is rewritten and every later call and every other variable sees the filled value instead of NaN",
+                      loc(f, hit[0]) if hit else loc(f))
+    if n_ret == 0:
+        raise AnalysisError("O9: no return statement found in any defuzzifier")
 
 
 def cascade(check: Check) -> None:
